@@ -373,10 +373,10 @@ Proof.
   intros ((t0 & H0) & (t1 & H1) & (t2 & H2)) Ho. unfold flagsI. rewrite !Ho by auto. eauto 10.
 Qed.
 
-Lemma flagsI_insert l n r : flagsI l -> sc_get l n = None -> flagsI (rf_insert l n r).
+Lemma flagsI_insert l n r : flagsI l -> nd n -> flagsI (rf_insert l n r).
 Proof.
-  intros F Hn. eapply flagsI_other; [exact F|]. intros m Hm. apply get_insert_other.
-  intros ->. destruct F as ((t0 & H0) & (t1 & H1) & (t2 & H2)). destruct Hm as [->|[->| ->]]; congruence.
+  intros F Hn. destruct (nd_not_flag _ Hn) as (N0 & N1 & N2).
+  eapply flagsI_other; [exact F|]. intros m Hm. apply get_insert_other. destruct Hm as [->|[->| ->]]; auto.
 Qed.
 
 Lemma compile_expr_FI e : forall sc is r sc', enames ename_ok e -> compile_expr e sc = Ok (is, r, sc') ->
